@@ -47,6 +47,8 @@ STRUCTS4 = [
     (('B', 'A'), ('D', 'B'), ('C', 'B'), ('A',)),
     (('A', 'B', 'C'), ('B', 'C', 'D')),
     (('A', 'C'), ('B', 'D')),
+    (('A', 'D'), ('C', 'D'), ('B', 'C')),          # the middle clique sorts after both neighbours
+    (('A', 'D'), ('B', 'D'), ('C', 'D'), ('A',)),
 ]
 
 
@@ -120,6 +122,10 @@ def run_one(si, total, engine, iters, zero, kind, seed, opt=None):
     if zero:
         cl = max(struct, key=len) if struct else ('A', 'B')
         zeros = {tuple(cl): [tuple([0] * len(cl))]}
+        if zero == 'slice' and len(cl) >= 2:
+            # a whole value of the LAST attribute of the clique is impossible (an entire separator value when that attribute is shared)
+            rest = [range(sizes[attrs.index(a)]) for a in cl[:-1]]
+            zeros = {tuple(cl): [tuple(c) + (0,) for c in itertools.product(*rest)]}
     eng = FactoredInference(Domain(attrs, sizes), iters=iters, structural_zeros=zeros, metric=(opt[0] if opt else 'L2'))
     with M.quiet():
         if opt:
@@ -149,8 +155,10 @@ def run_job(job):
                         'structure %r %s: %s' % (struct, case, '; '.join(m for k, m in fails if k == kd)[:600]))
         return acc
     si = job['si']
-    for total, engine, iters, zero, kind in itertools.product(TOTALS, ['MD', 'RDA', 'IG'], ITERS, [False, True], ['noisy', 'uniform']):
+    for total, engine, iters, zero, kind in itertools.product(TOTALS, ['MD', 'RDA', 'IG'], ITERS, [False, True, 'slice'], ['noisy', 'uniform']):
         if kind == 'uniform' and (zero or iters not in (1, 10)):
+            continue
+        if zero == 'slice' and (iters not in (1, 10) or total == 37.5):
             continue
         case = {'si': si, 'total': total, 'engine': engine, 'iters': iters, 'zero': zero, 'kind': kind, 'seed': job['seed']}
         struct, fails = run_one(si, total, engine, iters, zero, kind, job['seed'])
